@@ -10,6 +10,8 @@ import (
 	avm "github.com/artela-network/artela-evm/vm"
 	atypes "github.com/artela-network/aspect-core/types"
 	"github.com/ethereum/go-ethereum/common"
+	evm "github.com/ethereum/go-ethereum/core/vm"
+	"github.com/ethereum/go-ethereum/params"
 )
 
 // C05 — join points fire exactly once per contract call, nested, with that call's data.
@@ -22,6 +24,18 @@ type frameInfo struct {
 	codeLen int
 	jpOn    bool
 	host    bool // entered while the host was inside a provider callback (re-entrant call)
+	precomp bool // target is a precompile under the session's rules (reference table + Artela's 0x64-0x66 from Berlin)
+}
+
+// isPrecompileAddr decides independently of the code under test: go-ethereum v1.12.0's table for the
+// rule set, plus the three Artela addresses from the Berlin rules on.
+func isPrecompileAddr(rules params.Rules, a common.Address) bool {
+	for _, p := range evm.ActivePrecompiles(rules) {
+		if p == a {
+			return true
+		}
+	}
+	return rules.IsBerlin && a == common.BytesToAddress([]byte{a[19]}) && a[19] >= 100 && a[19] <= 102
 }
 
 type aspExec struct {
@@ -79,7 +93,7 @@ func attachJPMonitor(fs *h.ForkSession) *jpMonitor {
 			prev(e)
 		}
 		if e.K == h.KEnter || e.K == h.KStart {
-			m.info[e.Seq] = frameInfo{codeLen: fs.DB.GetCodeSize(e.To), jpOn: fs.EVM.IsExecuteJP, host: m.inCallback > 0}
+			m.info[e.Seq] = frameInfo{codeLen: fs.DB.GetCodeSize(e.To), jpOn: fs.EVM.IsExecuteJP, host: m.inCallback > 0, precomp: isPrecompileAddr(fs.Rules, e.To)}
 		}
 	}
 	return m
@@ -253,7 +267,7 @@ func checkJoinPoints(res *CaseResult, which string, m *jpMonitor, sh *shadowLog,
 		if f.exit == nil {
 			return
 		}
-		expected := f.callLike && f.info.codeLen > 0 && f.info.jpOn
+		expected := f.callLike && f.info.codeLen > 0 && f.info.jpOn && !f.info.precomp
 		where := fmt.Sprintf("frame %s", f.enter.Short())
 		if !expected {
 			if len(f.firings) > 0 {
@@ -262,6 +276,8 @@ func checkJoinPoints(res *CaseResult, which string, m *jpMonitor, sh *shadowLog,
 					why = "join points were switched off"
 				} else if f.callLike && f.info.codeLen == 0 {
 					why = "target has no code"
+				} else if f.info.precomp {
+					why = "target is a precompile"
 				}
 				fail("C05", "unexpected-firing", fmt.Sprintf("%d join point firing(s) for a frame where none may run (%s)", len(f.firings), why), where, f.firings[0].ev.Short())
 			}
@@ -778,6 +794,39 @@ func jpWorkload(c Case, which string, res *CaseResult) {
 			}
 		}
 		res.Count("huge_gas_runs", 1)
+	}
+	// 11. contract code planted at every precompile address (standard 0x01-0x09, Artela 0x64-0x66) with Aspects bound
+	//     to those addresses: where the address is a precompile under the fork's rules no join point may run and the
+	//     precompile answers; where it is not (yet), the planted code is an ordinary contract and gets both join points
+	{
+		fork := h.Fork((c.Seed >> 3) % uint64(h.Cancun+1))
+		planted := h.NewAsm().PushU(0x7e57).PushU(0).Op(h.MSTORE).PushU(32).PushU(0).Op(h.RETURN).Bytes()
+		top := h.NewAsm()
+		pl := &h.AspectPlan{Pre: map[common.Address][]h.Binding{}, Post: map[common.Address][]h.Binding{}, FailAt: map[int]error{}}
+		var addrs []common.Address
+		for _, b := range []byte{1, 2, 3, 4, 5, 6, 7, 8, 9, 0x0a, 0x64, 0x65, 0x66, 0x67} {
+			addrs = append(addrs, common.BytesToAddress([]byte{b}))
+		}
+		for i, a := range addrs {
+			var id common.Address
+			id[0], id[18], id[19] = 0xa5, 0x11, byte(i)
+			pl.Pre[a] = []h.Binding{{AspectID: id, Loops: 0}}
+			pl.Post[a] = []h.Binding{{AspectID: id, Loops: 0}}
+			kind := []byte{h.CALL, h.CALL, h.STATICCALL, h.DELEGATECALL, h.CALLCODE}[(int(c.Seed>>9)+i)%5]
+			top.PushU(32).PushU(0x200).PushU(uint64((int(c.Seed>>5)+i*37)%200)).PushU(0)
+			if kind == h.CALL || kind == h.CALLCODE {
+				top.PushU(0)
+			}
+			top.PushAddr(a).PushU(60000).Op(kind, h.POP)
+		}
+		top.Op(h.STOP)
+		w := h.BaseWorld([][]byte{top.Bytes()})
+		for _, a := range addrs {
+			w.Set(h.Acct{Addr: a, Balance: big.NewInt(1), Nonce: 1, Code: planted})
+		}
+		s11 := &scenario{Fork: fork, NContract: 1, World: w, Tx: h.TxSpec{Entry: h.ECall, From: h.Sender, To: h.ContractAddr(0), Input: []byte{3}, Gas: 3_000_000, Value: new(big.Int)}}
+		check(runJP(s11, pl, true, nil), "planted-precompile", jpCheckOpts{benign: true, plan: pl})
+		res.Count("planted_precompile_runs", 1)
 	}
 	res.Evals = evals
 	res.Set("forks", sc.Fork.String())
